@@ -219,7 +219,12 @@ class Check:
         if traces:
             self.cov["traces_validated_against_impl"] += r["evaluations"]
         if r.get("rule"):
-            self.rules.append(name + ": " + r["rule"])
+            for k, (names, rule) in enumerate(self.rules):
+                if rule == r["rule"]:
+                    self.rules[k] = (names + ", " + name, rule)
+                    break
+            else:
+                self.rules.append((name, r["rule"]))
         for s in (r.get("samples") or [])[: max(0, 4 - len(self.cov["samples"]))]:
             self.cov["samples"].append(s)
         run = dict(name=name, evaluations=r["evaluations"], distinct_nontrivial=r["distinct_nontrivial"],
@@ -282,7 +287,7 @@ class Check:
             lines.append("VIOLATION property=%s replay=%s" % (self.prop, path))
             lines.append("  # %s: %s" % (v.get("aspect"), str(v.get("what"))[:300]))
             rc = 1
-        self.cov["rule"] = " | ".join(self.rules) if self.rules else self.cov.get("rule", "")
+        self.cov["rule"] = " | ".join("%s: %s" % (n, r) for n, r in self.rules) if self.rules else self.cov.get("rule", "")
         if not self.cov["samples"]:
             self.cov["samples"] = ["(no sample recorded)"]
         ev = dict(property_id=self.prop, tier=self.tier, seed=self.seed, level=self.level, coverage=self.cov,
